@@ -1,6 +1,6 @@
 (* HsHttpHead.v — github.com/gobwas/httphead v0.1.0 as used by gobwas/ws: octet table,
    Scanner (tokens, separators, quoted strings), ScanTokens, ScanOptions,
-   OptionSelector.Select (flags = SelectCopy), Option/Parameters, WriteOptions.
+   OptionSelector.Select (flags = SelectCopy), Option with its parameter list, WriteOptions.
    A dependency outside the repository: modelled from its source, validated by its own
    correspondence kinds (HHTOK, HHOPT, HHWR).  Definitions only.
 
@@ -118,7 +118,7 @@ End ScanTokens.
 Definition token_list (data : list byte) : list (list byte) * bool :=
   scan_tokens _ (fun acc t => (acc ++ [t], true)) data [].
 
-(* ---------- Option / Parameters ---------- *)
+(* ---------- Option and its parameter list ---------- *)
 Record hopt := mkOpt { o_name : list byte; o_params : list (list byte * list byte) }.
 Definition params_size (ps : list (list byte * list byte)) : N :=
   fold_right (fun kv acc => len (fst kv) + len (snd kv) + acc) 0 ps.
